@@ -65,11 +65,14 @@ type Config struct {
 }
 
 func DefaultDialer() *uacp.Dialer {
+	// every dialer gets its own copy of the default handshake
+	// parameters since the options modify them in place.
+	ack := *uacp.DefaultClientACK
 	return &uacp.Dialer{
 		Dialer: &net.Dialer{
 			Timeout: DefaultDialTimeout,
 		},
-		ClientACK: uacp.DefaultClientACK,
+		ClientACK: &ack,
 	}
 }
 
